@@ -411,6 +411,9 @@ func CodeText(g *Grammar, e *Expr, o PrintOpts) string {
 	case KAction:
 		return "{ return vrt.Act(" + st + ", " + ctx + ") }"
 	case KAndCode, KNotCode:
+		if e.Lim > 0 {
+			return "{ return vrt.PredLim(" + st + ", " + ctx + ", " + strconv.Itoa(e.Lim) + ") }"
+		}
 		return "{ return vrt.Pred(" + st + ", " + ctx + ") }"
 	case KState:
 		return "{ return vrt.State(" + st + ", " + ctx + ", " + strconv.Quote(OpsScript(e.Ops)) + ") }"
